@@ -33,16 +33,7 @@ theorem proj_of_dict_attr (fuel : Nat) (st : SStack) (c c1 : Nat) (v : Expr) (ks
     (hnf : notFirstCall v = true)
     (hv : simp fuel st c v = .ok (.dict ks vs, c1)) (hel : dictLookup ks vs (.str a) = some el) :
     simp (fuel + 1) st c (.attr v a) = .ok (el, c1) := by
-  unfold notFirstCall at hnf
-  split at hnf
-  · cases hnf
-  · rename_i h
-    unfold simp
-    simp only []
-    split
-    · exact absurd rfl (h _ _ _)
-    · exact absurd rfl (h _ _ _)
-    · simp [hv, bind, Except.bind, hel, pure, Except.pure]
+  simp [simp, firstArg?_none_of_notFirstCall hnf, hv, bind, Except.bind, hel, pure, Except.pure]
 
 /-- a stacked name (the parameter of an inlined lambda) is replaced by the argument bound to it: this
     is how a later stage's `t[0]` meets the literal an earlier stage built -/
